@@ -176,6 +176,49 @@ def gen_isolation(rng):
     return "proj/main.etk", [("f", p, c) for p, c in files.items()], want, scenario + ("+label" if with_label else "")
 
 
+def gen_same_literal(rng):
+    """the SAME literal path string used by directives of files in DIFFERENT directories (each resolves beside its own
+    file, so they name different files with different contents), and the same file reached twice; libraries in a/ and b/
+    are included or imported by the top-level file, a label after them must account for both lengths"""
+    G.setup()
+    X = lambda toks: G.X(rng, toks)
+    how_lib = rng.choice(["include", "import"])
+    how_inner = rng.choice(["import", "include", "include_hex"])
+    ca = [("push", 1, X([G.lit(rng, rng.randrange(1, 200))]))]
+    cb = [("push", 2, X([G.lit(rng, rng.randrange(300, 60000))])), ("op", "pc")]
+    files = {}
+    def lib(d, tag, consts):
+        body = [("push", 1, X([str(tag)]))]
+        if how_inner == "include_hex":
+            blob, _ = A.assemble(consts)
+            files[f"proj/{d}/consts.etk"] = blob.hex().encode()
+            inner_ref = [("raw", blob)]
+        else:
+            files[f"proj/{d}/consts.etk"] = A.render(consts, None).encode()
+            inner_ref = consts if how_inner == "import" else [("raw", A.assemble(consts)[0])]
+        text = A.render(body, None) + f'%{how_inner}("consts.etk")\n'
+        files[f"proj/{d}/lib.etk"] = text.encode()
+        return body + inner_ref
+    ra, rb = lib("a", 1, ca), lib("b", 2, cb)
+    twice = rng.random() < 0.3
+    pre = [("push", 1, X(["end"]))]
+    post = [("label", "end"), ("op", "jumpdest")]
+    seq = [("a", ra), ("b", rb)] + ([("a", ra)] if twice else [])
+    if rng.random() < 0.5:
+        seq.reverse()
+    main = A.render(pre, None) + "".join(f'%{how_lib}("{d}/lib.etk")\n' for d, _ in seq) + A.render(post, None)
+    files["proj/main.etk"] = main.encode()
+    ref = list(pre)
+    for d, r in seq:
+        ref += r if how_lib == "import" else [("raw", A.assemble(r)[0])]
+    ref += post
+    try:
+        want, _ = A.assemble(ref)
+    except A.Faults as f:
+        want = ("err", [list(k) for k in f.keys])
+    return "proj/main.etk", [("f", p, c) for p, c in files.items()], want, f"{how_lib}/{how_inner}" + ("/twice" if twice else "")
+
+
 # ------------------------------------------------------------------ C18: containment
 
 CANARY = bytes.fromhex("63deadbeef")          # push4 0xdeadbeef
